@@ -184,6 +184,10 @@ impl Ctx {
     ) {
         self.mon(monitor).violations += 1;
         let key = format!("{}|{}", monitor, sig);
+        // values nested deeper than a JSON reader accepts never go into a report
+        let (rule_s, data_s) = (shallow(rule), shallow(data));
+        let (rule, data) = (&rule_s, &data_s);
+        let (expected, got) = (shallow(&expected), shallow(&got));
         let size = rule.to_string().len() + data.to_string().len();
         if let Some(&i) = self.vio_idx.get(&key) {
             let v = &mut self.violations[i];
@@ -433,4 +437,41 @@ pub fn trace_problem(obs: &[String], tr: &Trace, outcome_ok: bool) -> Option<&'s
         }
     }
     None
+}
+
+/// A stand-in for values nested deeper than 100 levels (reports are read back by JSON parsers with
+/// recursion limits): the depth class and the beginning of the text.
+pub fn shallow(v: &Value) -> Value {
+    if !refsem::nested_deeper_than(v, 100) {
+        return v.clone();
+    }
+    let mut depth = 100usize;
+    for d in [127usize, 128, 200, 300, 512, 600, 1000, 1024, 2048, 3000, 5000, 10000] {
+        if refsem::nested_deeper_than(v, d) {
+            depth = d;
+        }
+    }
+    // the text is produced iteratively (no recursion): a prefix is enough to recognise the case
+    let mut text = String::new();
+    let mut cur = v;
+    for _ in 0..40 {
+        match cur {
+            Value::Array(a) if !a.is_empty() => {
+                text.push('[');
+                cur = a.iter().find(|x| x.is_array() || x.is_object()).unwrap_or(&a[0]);
+            }
+            Value::Object(m) if !m.is_empty() => {
+                let (k, x) = m.iter().find(|(_, x)| x.is_array() || x.is_object()).unwrap_or_else(|| m.iter().next().unwrap());
+                text.push_str(&format!("{{{:?}:", k));
+                cur = x;
+            }
+            other => {
+                if !other.is_array() && !other.is_object() {
+                    text.push_str(&other.to_string());
+                }
+                break;
+            }
+        }
+    }
+    json!({"<value nested deeper than>": depth, "text begins": text})
 }
